@@ -125,7 +125,7 @@ def worker(acc, shard, nshards, tier, seed):
         for sname, spec in scorings(ALPHA):
             nt = check_case(acc, alignment, s1, s2, sname, spec)
             acc.case('len%d' % max(len(s1), len(s2)), nontrivial=nt)
-        if acc.states % 997 == 1:
+        if not acc.samples or acc.states % 997 == 1:
             acc.sample({'s1': s1, 's2': s2})
 
 
